@@ -235,6 +235,9 @@ func (t *Input) Validate(root *Root) (errs []error) {
 	if 0 < t.fields.Len() { // must have at least one field
 		for _, f := range t.fields.list {
 			errs = append(errs, validateName(f.core, "field", f.N, f.line, f.col)...)
+			for _, du := range f.Dirs {
+				errs = append(errs, root.validateDirUse(t.Name()+"."+f.N, "", du)...)
+			}
 			if !IsInputType(f.Type) {
 				errs = append(errs, fmt.Errorf("%w, %s does not return an input type at %d:%d",
 					ErrValidation, f.Name(), f.line, f.col))
